@@ -97,13 +97,18 @@ struct Live {
     model: Expect,
     word_idx: u64,
     pkt: u64,
+    /// running (stateful) rules are active in this configuration
+    running: bool,
+    /// a data word or CDW was already seen in this packet (the tool takes 0xF8 for a CDW only before that)
+    data_started: bool,
 }
 
 impl Live {
     fn new(cfg: &'static MockConfig) -> Result<Self, String> {
         let mut st = val::CdpStepper::new(cfg);
         st.set_rdh(&Rdh::base().encode(), 0)?;
-        Ok(Live { fsm: ItsPayloadFsmContinuous::default(), st, model: Expect::Ihw, word_idx: 0, pkt: 0 })
+        let running = cfg.check.as_ref().map_or(false, |c| matches!(c, fastpasta::config::check::CheckCommands::All(_)));
+        Ok(Live { fsm: ItsPayloadFsmContinuous::default(), st, model: Expect::Ihw, word_idx: 0, pkt: 0, running, data_started: false })
     }
     fn word_offset(&self) -> u64 {
         self.pkt * 0x10000 + 64 + 10 * self.word_idx
@@ -111,7 +116,11 @@ impl Live {
     fn new_packet(&mut self) -> Result<(), String> {
         self.pkt += 1;
         self.word_idx = 0;
-        self.st.set_rdh(&Rdh::base().encode(), self.pkt * 0x10000)
+        self.data_started = false;
+        // the next page of the same HBF: the page counter follows the packet number
+        let mut r = Rdh::base();
+        r.pages_counter = self.pkt as u16;
+        self.st.set_rdh(&r.encode(), self.pkt * 0x10000)
     }
     /// One word through model, bare FSM and validator; checks the C09 invariants for this step.
     fn step(&mut self, w: &[u8; 10]) -> Result<(u8, Expect, Vec<String>), Viol> {
@@ -142,10 +151,20 @@ impl Live {
                     if any_e99 {
                         return Err(mk("fsm:legal-word-reported", format!("legal {:?} in {state_desc} reported as unrecognised: {:?}", class, msgs)));
                     }
+                    let mut rejected_by_rule = false;
                     if let Some((code, rejected)) = sanity_expectation(class, w) {
                         if has(code) != rejected {
                             return Err(mk("fsm:sanity-code", format!("{:?} {} in {state_desc}: documented predicate rejects={rejected}, {code} reported={}", class, hex(w), has(code))));
                         }
+                        rejected_by_rule = rejected;
+                    }
+                    // a legal word that passes its own sanity rule is not reported at all (the word-level modes used here
+                    // have no running rules that could apply)
+                    // (a CDW is a CDW only at the start of a packet's data - the stream grammar places it there; a
+                    // 0xF8 word later in the data is outside the documented cases and not judged here)
+                    let judged = class != Class::Cdw || !self.data_started;
+                    if judged && !rejected_by_rule && !codes.is_empty() && !self.running {
+                        return Err(mk("fsm:legal-word-reported", format!("legal {:?} {} in {state_desc} (packet {}, word {}) reported with {:?}", class, hex(w), self.pkt, self.word_idx - 1, codes)));
                     }
                 }
                 next_model = next;
@@ -175,6 +194,10 @@ impl Live {
         let inside = self.st.v.verif_fsm_state_id();
         if bare != inside {
             return Err(mk("fsm:composition", format!("FSM inside the validator is in state {inside}, the bare FSM in {bare}")));
+        }
+        match cls {
+            Ok(Class::Data) | Ok(Class::Cdw) => self.data_started = true,
+            _ => {}
         }
         self.model = next_model;
         Ok((bare, next_model, codes))
@@ -236,7 +259,10 @@ impl Sys for FsmProduct {
                 }
             }
         }
-        Ok(StepOut { key: (live.model, live.fsm.verif_state_id()), obs: last })
+        // the key also tells the first page of an HBF from later pages (per-packet flags may depend on the page counter)
+        // and whether the validator still regards the next word as the start of the packet's data (CDW position)
+        let start_of_data = live.st.v.verif_fingerprint().get(1).copied().unwrap_or(0) & 1;
+        Ok(StepOut { key: (live.model, live.fsm.verif_state_id() | (start_of_data << 6) | (((live.pkt > 0) as u8) << 7)), obs: last })
     }
 }
 
